@@ -3,6 +3,7 @@ package c09
 
 import (
 	"fmt"
+	"time"
 
 	"go.nanomsg.org/mangos/v3"
 	"go.nanomsg.org/mangos/v3/protocol/pair1"
@@ -70,7 +71,9 @@ func init() {
 		}
 		out = append(out,
 			&vexplore.Scenario{Name: "survey-device-chain-1", Mode: "sched", Bound: b, Reset: kit.ResetGlobals, Body: surveyChain},
+			&vexplore.Scenario{Name: "survey-device-chain-2-two-surveyors", Mode: "sched", Bound: b, Reset: kit.ResetGlobals, Body: surveyChain2},
 			&vexplore.Scenario{Name: "pair1-device-chain-1", Mode: "sched", Bound: b, Reset: kit.ResetGlobals, Body: pair1Chain},
+			&vexplore.Scenario{Name: "star-device-forwarder-ttl-is-the-receivers", Mode: "enum", Reset: kit.ResetGlobals, Body: starDeviceTTL, NeedCounters: []string{"star-forwarded-by-device"}},
 			&vexplore.Scenario{Name: "reqrep-device-ttl-exact", Mode: "enum", Reset: kit.ResetGlobals, Body: deviceTTL},
 		)
 		return out
@@ -244,7 +247,7 @@ func reqrepChain(n int) {
 			if err != nil {
 				return nil, err
 			}
-			if err := kit.SendBytes(srv, []byte("answer-to-" + string(b))); err != nil {
+			if err := kit.SendBytes(srv, []byte("answer-to-"+string(b))); err != nil {
 				return nil, err
 			}
 		}
@@ -332,6 +335,80 @@ func surveyChain() {
 	})
 }
 
+// surveyChain2: two surveyors reach one respondent through two devices in a row, so that both
+// surveys travel over the same connection between the devices and wait behind each other; the
+// respondent answers them one after the other.  Each surveyor receives the answer to its own
+// survey and nothing else.
+func surveyChain2() {
+	var svs []mangos.Socket
+	for i := 0; i < 2; i++ {
+		sv, err := surveyor.NewSocket()
+		must(err, "NewSocket")
+		must(sv.SetOption(mangos.OptionSurveyTime, time.Hour), "SurveyTime")
+		must(sv.Listen(fmt.Sprintf("inproc://c09-sv2-%d", i)), "Listen")
+		svs = append(svs, sv)
+	}
+	mk := func(up []string, down string) (mangos.Socket, mangos.Socket) {
+		xr, err := xrespondent.NewSocket()
+		must(err, "NewSocket")
+		xs, err := xsurveyor.NewSocket()
+		must(err, "NewSocket")
+		must(xs.Listen(down), "Listen")
+		for _, u := range up {
+			must(xr.Dial(u), "Dial")
+		}
+		must(mangos.Device(xr, xs), "Device")
+		return xr, xs
+	}
+	xr1, xs1 := mk([]string{"inproc://c09-sv2-0", "inproc://c09-sv2-1"}, "inproc://c09-dev2a")
+	xr2, xs2 := mk([]string{"inproc://c09-dev2a"}, "inproc://c09-dev2b")
+	r, err := respondent.NewSocket()
+	must(err, "NewSocket")
+	must(r.Dial("inproc://c09-dev2b"), "Dial")
+	kit.Quiesce()
+	rc := kit.Start("respondent", func() (interface{}, error) {
+		for i := 0; i < 2; i++ {
+			b, err := kit.Recv(r)
+			if err != nil {
+				return nil, err
+			}
+			if err := kit.SendBytes(r, []byte("answer-to-"+string(b))); err != nil {
+				return nil, err
+			}
+		}
+		return nil, nil
+	})
+	var calls []*kit.Call
+	for i, sv := range svs {
+		i, sv := i, sv
+		calls = append(calls, kit.Start(fmt.Sprintf("surveyor%d", i), func() (interface{}, error) {
+			if err := kit.SendBytes(sv, []byte(fmt.Sprintf("survey-%d", i))); err != nil {
+				return nil, err
+			}
+			b, err := kit.Recv(sv)
+			return string(b), err
+		}))
+	}
+	kit.Quiesce()
+	if !rc.Done() || rc.Err != nil {
+		kit.Failf("survey-chain-respondent", "respondent behind two devices: done=%v %s", rc.Done(), kit.ErrName(rc.Err))
+	}
+	for i, c := range calls {
+		want := fmt.Sprintf("answer-to-survey-%d", i)
+		if !c.Done() || c.Err != nil {
+			kit.Failf("survey-chain-surveyor-stuck", "two surveyors through two devices: surveyor %d done=%v %s (its answer went elsewhere or nowhere)", i, c.Done(), kit.ErrName(c.Err))
+		}
+		if c.Val.(string) != want {
+			kit.Failf("survey-chain-answer-swapped", "two surveyors through two devices: surveyor %d received %q, want %q", i, c.Val, want)
+		}
+	}
+	kit.Must("Close", func() {
+		for _, s := range append(svs, xr1, xs1, xr2, xs2, r) {
+			_ = s.Close()
+		}
+	})
+}
+
 func pair1Chain() {
 	a, err := pair1.NewSocket()
 	must(err, "NewSocket")
@@ -371,6 +448,68 @@ func pair1Chain() {
 
 // deviceTTL: through n real devices a request crosses n+1 connections; with the server's TTL
 // set to t it is served iff n+1 <= t (the client is given a receive deadline in virtual time).
+// starDeviceTTL: two STAR members joined by a forwarder (a device between two raw STAR sockets).
+// Whether a message is delivered depends on the connections it crossed (2) and on the TTL of the
+// socket that receives it - the TTL of the socket the forwarder sends from plays no part: with the
+// receiving member at TTL t it is delivered iff 2 <= t, whatever TTL (1, 2, default) the forwarder's
+// outgoing socket has.
+func starDeviceTTL() {
+	outTTL := []int{0, 1, 2, 3}[kit.ChooseFree(4)] // 0 = leave the default
+	recvTTL := []int{0, 1, 2, 3}[kit.ChooseFree(4)]
+	dir := kit.ChooseFree(2)
+	f, err := xstar.NewSocket()
+	must(err, "NewSocket")
+	b, err := xstar.NewSocket()
+	must(err, "NewSocket")
+	must(f.Listen("inproc://c09-sd-f"), "Listen")
+	must(b.Listen("inproc://c09-sd-b"), "Listen")
+	out := b
+	if dir == 1 {
+		out = f
+	}
+	if outTTL > 0 {
+		must(out.SetOption(mangos.OptionTTL, outTTL), "TTL")
+	}
+	must(mangos.Device(f, b), "Device")
+	x, err := star.NewSocket()
+	must(err, "NewSocket")
+	y, err := star.NewSocket()
+	must(err, "NewSocket")
+	must(x.Dial("inproc://c09-sd-f"), "Dial")
+	must(y.Dial("inproc://c09-sd-b"), "Dial")
+	snd, rcv := x, y
+	if dir == 1 {
+		snd, rcv = y, x
+	}
+	if recvTTL > 0 {
+		must(rcv.SetOption(mangos.OptionTTL, recvTTL), "TTL")
+	}
+	kit.Quiesce()
+	must(kit.SendBytes(snd, []byte("through-the-forwarder")), "Send")
+	rc := kit.Start("Recv", func() (interface{}, error) { v, err := kit.Recv(rcv); return string(v), err })
+	kit.Quiesce()
+	limit := recvTTL
+	if limit == 0 {
+		limit = 8
+	}
+	want := 2 <= limit
+	if want != rc.Done() {
+		kit.Failf("star-forwarder-ttl", "STAR member -> forwarder (outgoing socket TTL %d, 0 = default) -> STAR member with TTL %d (0 = default): 2 connections crossed, delivered=%v, want %v", outTTL, recvTTL, rc.Done(), want)
+	}
+	if rc.Done() && (rc.Err != nil || rc.Val.(string) != "through-the-forwarder") {
+		kit.Failf("star-forwarder-payload", "received %q / %s", rc.Val, kit.ErrName(rc.Err))
+	}
+	if want {
+		kit.Count("star-forwarded-by-device")
+	}
+	kit.Observe("%d %d %d", outTTL, recvTTL, dir)
+	kit.Must("Close", func() {
+		for _, s := range []mangos.Socket{x, y, f, b} {
+			_ = s.Close()
+		}
+	})
+}
+
 func deviceTTL() {
 	n := kit.ChooseFree(3)     // devices 0..2
 	t := 1 + kit.ChooseFree(3) // ttl 1..3
